@@ -87,11 +87,17 @@ inductive Lookup where
   | load (n : Option Name)     -- none: a name outside the op alphabet → bad-tree
   | has (n : Option Name)
   | discover
+  | define (l : Lid) (n : Option Name)   -- a definition made between lookups in file loader `l` (none: not a type name)
 
 def lookup? : Sexp → Option Lookup
   | .list [.atom "load", n] => n.str?.map fun s => .load (name? s)
   | .list [.atom "has", n] => n.str?.map fun s => .has (name? s)
   | .list [.atom "discover"] => some .discover
+  | .list [.atom "def", .atom "g", n] => n.str?.map fun s => .define .g (typeName? s)
+  | .list [.atom "def", .list [.atom "m", m], n] => do
+    let mod ← m.str?
+    let s ← n.str?
+    pure (.define (.m mod) (if asciiPrintable s then typeName? s else none))
   | _ => none
 
 /-- the context's loader and the topology: `e` = the dependency loader of the flat topology (global loader first member) -/
@@ -150,6 +156,10 @@ def runLookups (fuel : Nat) (cfg : Cfg) : St → List Lookup → Option (List St
         some (outcomeStr o (s'.reads.drop s.reads.length), s')
       | .has (some n) => some ("has " ++ boolStr (hasEntry cfg s cfg.via (keyOf n)), s)
       | .discover => some ("names " ++ ",".intercalate ((discover cfg s cfg.via).map joinName), s)
+      | .define l (some n) =>
+        match defineS s l n with
+        | (none, s') => some ("defined", s')
+        | (some e, s') => some (errStr e, s')
       | _ => none)
     let (items, s'') ← runLookups fuel cfg s' ls
     pure (item :: items, s'')
@@ -170,6 +180,8 @@ def execTree (modsE filesE viaE lookupsE : Sexp) : String :=
         else if lookups.any (fun l => match l with
             | .load none => true
             | .has none => true
+            | .define _ none => true
+            | .define (.m mod) _ => !mods.contains mod
             | _ => false) then "bad-tree"
         else
           let tree := files.mergeSort (fun a b => !(segLt b.1 a.1))
